@@ -53,13 +53,14 @@ impl Sim<'_> {
 
 fn trailing_shifts(seq: &[R]) -> usize { seq.iter().rev().take_while(|r| matches!(r, R::Shift(_))).count() }
 
-/// the minimum-cost success sequences from (stack, pos), all token costs 1; None if none within `max_cost`
-fn oracle(sim: &Sim, stack0: &Stack, pos0: usize, max_cost: usize) -> Option<Vec<(Vec<R>, Stack, usize)>> {
-    let mut level: Vec<(Stack, usize, Vec<R>)> = vec![(stack0.clone(), pos0, vec![])];
-    for _cost in 0..=max_cost {
+/// the minimum-cost success sequences from (stack, pos) under the token costs `tc` (by token index); None if none within `max_cost`
+fn oracle(sim: &Sim, stack0: &Stack, pos0: usize, max_cost: usize, tc: &dyn Fn(TIdx<u32>) -> usize) -> Option<Vec<(Vec<R>, Stack, usize)>> {
+    let mut levels: Vec<Vec<(Stack, usize, Vec<R>)>> = vec![Vec::new(); max_cost + 1];
+    levels[0].push((stack0.clone(), pos0, vec![]));
+    for cost in 0..=max_cost {
         // closure of this cost level under the zero-cost move, success nodes are not expanded
         let mut seen: BTreeSet<(Vec<u32>, usize, Vec<R>)> = BTreeSet::new();
-        let mut work = level.clone();
+        let mut work = std::mem::take(&mut levels[cost]);
         let mut nodes = Vec::new();
         let mut succ = Vec::new();
         while let Some((stack, pos, seq)) = work.pop() {
@@ -75,21 +76,24 @@ fn oracle(sim: &Sim, stack0: &Stack, pos0: usize, max_cost: usize) -> Option<Vec
             if seen.len() > 200_000 { return None; }
         }
         if !succ.is_empty() { return Some(succ); }
-        // cost + 1: inserts (never directly after a delete, never the end-of-input token) and a delete
-        let mut next = Vec::new();
+        // dearer levels: inserts (never directly after a delete, never the end-of-input token) and a delete
         for (stack, pos, seq) in nodes {
             if !matches!(seq.last(), Some(R::Del(_))) {
                 for t in 0..usize::from(sim.grm.tokens_len()) {
                     let tidx = TIdx(t as u32);
                     if tidx == sim.grm.eof_token_idx() { continue; }
+                    let c2 = cost + tc(tidx);
+                    if c2 > max_cost { continue; }
                     let mut s2 = stack.clone();
-                    if sim.feed(&mut s2, tidx) { let mut q = seq.clone(); q.push(R::Ins(t as u32)); next.push((s2, pos, q)); }
+                    if sim.feed(&mut s2, tidx) { let mut q = seq.clone(); q.push(R::Ins(t as u32)); levels[c2].push((s2, pos, q)); }
                 }
             }
-            if pos < sim.toks.len() { let mut q = seq.clone(); q.push(R::Del(pos)); next.push((stack.clone(), pos + 1, q)); }
+            if pos < sim.toks.len() {
+                let c2 = cost + tc(sim.toks[pos]);
+                if c2 <= max_cost { let mut q = seq.clone(); q.push(R::Del(pos)); levels[c2].push((stack.clone(), pos + 1, q)); }
+            }
         }
-        level = next;
-        if level.len() > 200_000 { return None; }
+        if levels.iter().map(|l| l.len()).sum::<usize>() > 200_000 { return None; }
     }
     None
 }
@@ -126,7 +130,7 @@ fn node_skeleton(n: &lrpar::Node<lrlex::DefaultLexeme<u32>, u32>) -> String {
     }
 }
 
-fn once(gsrc: String, input: String) -> Result<String, String> {
+fn once(gsrc: String, input: String, costs: Vec<u8>) -> Result<String, String> {
     let grm = YaccGrammar::<u32>::new_with_storaget(YaccKind::Original(YaccOriginalActionKind::GenericParseTree), &gsrc).map_err(|_| "grammar".to_string())?;
     let (_, stable) = from_yacc(&grm, Minimiser::Pager).map_err(|_| "table".to_string())?;
     if stable.conflicts().is_some() { return Err("grammar".into()); }
@@ -137,7 +141,7 @@ fn once(gsrc: String, input: String) -> Result<String, String> {
     let lexemes: Vec<_> = lexer.iter().filter_map(|l| l.ok()).collect();
     let toks: Vec<TIdx<u32>> = lexemes.iter().map(|l| TIdx(l.tok_id())).collect();
     let starts: Vec<usize> = lexemes.iter().map(|l| l.span().start()).collect();
-    let costf = |_: TIdx<u32>| 1u8;
+    let costf = |t: TIdx<u32>| costs[usize::from(t) % costs.len()];
     let pb = RTParserBuilder::new(&grm, &stable).recoverer(RecoveryKind::CPCTPlus).term_costs(&costf);
     #[allow(deprecated)]
     let (tree_, errs) = catch_unwind(AssertUnwindSafe(|| pb.parse_generictree(&lexer))).map_err(|_| "panic inside parse".to_string())?;
@@ -152,7 +156,8 @@ fn once(gsrc: String, input: String) -> Result<String, String> {
     if pe.lexeme().span().start() != epos && pos < starts.len() { return Err(format!("first error reported at byte {}, the table rejects at byte {}", pe.lexeme().span().start(), epos)); }
     // (the feed above may have reduced under the erroneous lookahead before hitting the error cell: the
     // recoverer is handed the stack as it is at that point)
-    let want = match oracle(&sim, &stack, pos, 4) { Some(s) => s, None => return Ok("search space too big".into()) };
+    let maxc = costs.iter().map(|c| *c as usize).max().unwrap_or(1);
+    let want = match oracle(&sim, &stack, pos, if maxc == 1 { 4 } else { 3 * maxc.min(3) }, &|t| costs[usize::from(t) % costs.len()] as usize) { Some(s) => s, None => return Ok("search space too big".into()) };
     // rank by reach, strip trailing shifts, dedup
     let limit = pos + 250;
     let best = want.iter().map(|(_, s, p)| sim.reach(s.clone(), *p, limit)).max().unwrap();
@@ -204,11 +209,14 @@ fn once(gsrc: String, input: String) -> Result<String, String> {
     Ok(format!("{} sequences", got.len()))
 }
 
-pub fn run(g: &str, input: &str) -> Outcome {
-    crate::note_case("c06_repairs", json!({"grammar": g, "input": input}));
+pub fn run(g: &str, input: &str) -> Outcome { run_costs(g, input, &[1]) }
+
+/// token t costs `costs[t mod len]`
+pub fn run_costs(g: &str, input: &str, costs: &[u8]) -> Outcome {
+    crate::note_case("c06_repairs", json!({"grammar": g, "input": input, "costs": costs}));
     let (tx, rx) = mpsc::channel();
-    let (g2, i2) = (g.to_string(), input.to_string());
-    std::thread::spawn(move || { let _ = tx.send(once(g2, i2)); });
+    let (g2, i2, c2) = (g.to_string(), input.to_string(), costs.to_vec());
+    std::thread::spawn(move || { let _ = tx.send(once(g2, i2, c2)); });
     let expected = "exactly the minimum-cost repair sequences that parse furthest, none ending in a shift, none twice".to_string();
     match rx.recv_timeout(crate::tmo(8000)) {
         Ok(Ok(d)) => Outcome { fails: false, observed: d, expected },
@@ -253,6 +261,12 @@ pub fn search(_tag: &str, tier: &str) -> Option<Value> {
         let input: String = (0..l).map(|_| ["a ", "b ", "c "][r.below(3)]).collect();
         let o = run(&g, &input);
         if o.fails { return Some(witness("c06_repairs", json!({"grammar": g, "input": input}), &o)); }
+        // non-unit token costs (token t costs costs[t mod len])
+        if k % 3 == 0 {
+            let costs: &[u8] = [&[1u8, 2][..], &[2, 1, 3][..], &[3, 1][..], &[1, 1, 2][..]][r.below(4)];
+            let o = run_costs(&g, &input, costs);
+            if o.fails { return Some(witness("c06_repairs", json!({"grammar": g, "input": input, "costs": costs}), &o)); }
+        }
     }
     None
 }
